@@ -16,7 +16,7 @@ CONFIG = {
                    "combined; writes that bypass open()/os.* (e.g. os.write on a raw fd obtained elsewhere) would be atomic "
                    "in the model. Known finding: the first-generation window (ascmhl folder exists, chain not yet)."),
     "technique": "deterministic simulation: seeded crash-point injection (kill at numbered fs effects) + post-crash oracles",
-    "quick": {"runs": 160, "budget_s": 60},
+    "quick": {"runs": 240, "budget_s": 90},
     "thorough": {"runs": 1600, "budget_s": 540},
     "rule": ("scenario = random world (tz, write-buffer size 1..65536, enumeration/read profile) + setup history of 0..3 "
              "generations (flat or nested) + one target create; the target's numbered effect log (mkdir/creat/write/close/"
